@@ -1,9 +1,11 @@
 """C01 — Hamiltonian -> TTNO conversion is exact for every tree, term set and method.
 
-The SGE / BIPARTITE / TREE pipelines are not re-implemented in the model: the state diagram the
+The SGE / TREE pipelines are not re-implemented in the model: the state diagram the
 implementation builds is exported through its public attributes and certified by the verified
 checker `sd_check` (coq/theories/SD/Model.v, soundness in SD/ModelProofs.v).  The tensor filling,
-the padding and the BASE construction are tied exactly.  Helpers of this file are reused by C12.
+the padding and the BASE construction are tied exactly.  The BIPARTITE driver IS modelled
+(coq/theories/SD/Pipeline.v) and tied after every driver call: see props/c01d.py ([ext-C01D] blocks here).
+Helpers of this file are reused by C12.
 """
 from __future__ import annotations
 
@@ -18,6 +20,7 @@ import numpy as np
 from lib import Prop, coq_eval, coq_q, coq_nat, coq_list, load_known, unsome
 import util
 from util import TensorProduct, Hamiltonian, TTNO, TTNS, Node
+from props import c01d          # [ext-C01D] pipeline model tie (BIPARTITE driver) [/ext-C01D]
 
 METHODS = ["SGE", "BIPARTITE", "TREE", "BASE"]
 KF_TREE = "C01-tree-coefficients"
@@ -782,8 +785,31 @@ class C01(Prop):
               "C01_merge_keeps_exact); cut_and_optimise/_reconnect_hyperedges: over any commutative ring, Gamma = L*Gamma_u*R and a vertex cover of the "
               "support of Gamma_u => sum_ij u_i Gamma_ij v_j = sum over the new row-/column-cover vertices, every covered entry used exactly once, rows first "
               "(C01_cut_regroup_sound, C01_cover_assignment_unique), composed with C13 for the triple gaussian_elimination returns (C01_cut_regroup_sge). "
-              "These are theorems about the model operations; the pipeline driver (BFS order, hashing, V classes, copies) is not modelled, so the methods' "
-              "exactness stays per instance (clause I)"),
+              "These are theorems about the model operations; for SGE and TREE the pipeline driver is not modelled, so their exactness stays per "
+              "instance (clause I); for BIPARTITE see the next clauses"),
+        # [ext-C01D]
+        ("F", "pipeline model, one cut (SD/Pipeline.v cut_step = cut_and_optimise with SGE == False: V classes by v_hash incl. the re-hash branch, Gamma with "
+              "overwriting assignments, bipartite graph of the non-zero entries, the verified minimum_vertex_cover of C14's model, _reconnect_hyperedges rows first "
+              "with a copy for every second use of a hyperedge): for every tree, every tree edge and every input diagram satisfying the decidable precondition "
+              "cut_pre (one vertex per leg on the hyperedges of the two nodes; unit coefficients on the child node's hyperedges - the code ignores and overwrites "
+              "them; no two hyperedges of one V class on the same vertex of the cut edge - otherwise the second assignment to Gamma overwrites the first: "
+              "C01-duplicate-terms), the step preserves sd_denote (C01_cut_step_sound).  Proved directly on the modelled operation through the two-level normal form of "
+              "the value at the edge and a regrouping lemma over the cover (cover_split); cut_regroup_sound itself is over a commutative ring with Leibniz equality and "
+              "is not instantiable on the label-ordered polynomials"),
+        ("F", "pipeline model, one combine_subtrees call and the driver loop (BFS levels, per level all combines then all cuts): sd_denote is preserved by a combine call "
+              "whose merges satisfy the decidable form of the hypotheses of merge_equal_subtrees_sound (C01_combine_step_sound), and from_hamiltonian_bipartite t H = Some d "
+              "with pipeline_ok t H = true (the step preconditions evaluated before every step of the run) implies sd_denote d = ham_denote H for every tree and "
+              "term list (C01_pipeline_exact_checked_partial).  PARTIAL: not proved is that pairwise distinct terms imply pipeline_ok (the invariant of the BFS run: "
+              "base-shaped sub-diagrams below the frontier, hash consistency, no parallel hyperedges) - it is evaluated per instance instead (next clause)"),
+        ("I", "BIPARTITE, per explored instance without exactly repeated terms: pipeline_ok holds (every cut_pre / merge precondition of the model's run, by vm_compute) and "
+              "the model's final diagram passes sd_check; with C01_pipeline_exact_checked_partial and the exact tie below this is a second, independent kernel-checked "
+              "proof of exactness of that instance"),
+        ("V", "BIPARTITE driver tie (props/c01d.py): a recorder wrapped at run time around get_state_diagram_compound / combine_subtrees / cut_and_optimise exports the "
+              "diagram after EVERY driver call; the model's pipeline_trace equals it call by call in the canonical form used for BASE (per node the ordered list of "
+              "(label, lambda, gamma, bond indices), per edge the number of vertices), compared inside Coq, exact; the model's states satisfy sd_wf; the call sequence is "
+              "the BFS order; where the implementation raises (IndexError of _remove_reduntant_v_hyperedges) or leaves a hyperedge without vertex on the cut edge the "
+              "model returns None at that call"),
+        # [/ext-C01D]
         ("F", "structure_preserved: the model of TTNO.from_state_diagram/_rec_zero_ttno (obtain_tensor_shape, add_child_to_parent with its checks and leg moves) "
               "succeeds on every well-formed diagram whose labels are in the operator table and yields exactly the tree's identifiers in pre-order, parents, "
               "children in order, legs (parent, children..., out, in), bond dimension = number of vertices of the edge, physical dimension = table entry of the "
@@ -801,7 +827,14 @@ class C01(Prop):
     ]
     trusted_base = ["the export of StateDiagram objects (python identity -> names; vertices sorted by the neighbour they point to, as HyperEdge.find_tensor_position does)",
                     "labels/symbols enter the model as opaque naturals: linear independence of distinct operator strings is not needed for soundness (equal polynomials => equal operators)",
-                    "numpy einsum / kron for the dense references (tolerance 1e-9 relative to the operator norm scale)"]
+                    "numpy einsum / kron for the dense references (tolerance 1e-9 relative to the operator norm scale)",
+                    # [ext-C01D]
+                    "pipeline model: sha256 is modelled by what is hashed (subtree hash = labels of the subtree in pre-order, v_hash = label + vertices outside the cut edge + "
+                    "re-hash tag): collision-freeness of sha256 and fixed-length uuid/digest strings are assumed; uuids are modelled as fresh names; the run-time recorder "
+                    "(monkeypatched wrappers, /repo untouched) and the canonical form of the exported intermediate diagrams; gaussian_elimination, which the BIPARTITE path "
+                    "also calls and whose result it discards, is not part of the pipeline model",
+                    # [/ext-C01D]
+                    ]
     assumptions = ["node identifiers of the reference tree are distinct (TreeStructure guarantees it)",
                    "at least one term; every label of the Hamiltonian and 'I<d>' for every untouched node's dimension is in the conversion dictionary"]
 
@@ -913,8 +946,10 @@ class C01(Prop):
                 captured["sd"] = build_injected(case, ttns)
                 ttno = TTNO.from_state_diagram(captured["sd"], ham.conversion_dictionary, ham.coeffs_mapping)
             else:
-                with spy_state_diagram(captured):
+                # [ext-C01D] BIPARTITE: record the diagram after every combine_subtrees / cut_and_optimise call
+                with spy_state_diagram(captured), c01d.recorder(case, ob):
                     ttno = TTNO.from_hamiltonian(ham, ttns, finder(case["method"]))
+                # [/ext-C01D]
         except Exception as e:  # noqa
             site = traceback.extract_tb(e.__traceback__)[-1].name
             ob["exception"] = f"{type(e).__name__}: {e} [in {site}]"
@@ -1031,6 +1066,7 @@ class C01(Prop):
                 f"| Some H => (true, map (fun tm => map (snd tm) (ids t)) H, sd_wf t d, sd_check t H d, sd_diff t H d, {base}, sd_refute t H d, {shp}) "
                 f"| None => (false, [], false, false, None, @None canon, false, {shp}) end)")
         vals = coq_eval(ctx, IMPORTS, exprs, shard=40, scope="nat_scope")
+        c01d.run_model(ctx, cases, obs)      # [ext-C01D] model trace vs recorded steps, stored in the observations [/ext-C01D]
         # per-instance obligations: the exported diagram is well-formed and certified exact
         known = {k["id"] for k in load_known() if k.get("property") == self.id and k.get("status") == "known"}
         n = ok = 0
@@ -1050,6 +1086,16 @@ class C01(Prop):
             else:
                 n += 1
                 fails.append(f"sd_wf={v[2]} sd_check={v[3]} differing key {v[4]} for method {c['method']} case {c}")
+        # [ext-C01D] per instance: the step-theorem preconditions hold before every step of the model's BIPARTITE run
+        # (pipeline_checks) and the model's final diagram is certified: hypothesis of C01_pipeline_exact_checked_partial
+        for c, ob in zip(cases, obs):
+            if isinstance(ob, dict) and self._class_of(c) != KF_DUP:
+                cnt, good, msg = c01d.instance_obligation(c, ob)
+                n += int(cnt)
+                ok += int(good)
+                if msg:
+                    fails.append(msg)
+        # [/ext-C01D]
         self._inst = (n, ok, fails[:3])
         return vals
 
@@ -1101,6 +1147,11 @@ class C01(Prop):
                     return f"padding changed the coefficient of term {k}"
             if len(padded) != len(ob["padded"]):
                 return "padding changed the number of terms"
+        # [ext-C01D] BIPARTITE: the model's run equals the implementation's after every driver call
+        msg = c01d.compare(case, ob)
+        if msg:
+            return msg
+        # [/ext-C01D]
         if "exception" in ob:
             if case["method"] == "BASE":
                 return f"implementation raised {ob['exception']} where the model builds the BASE diagram"
@@ -1230,6 +1281,8 @@ class C01(Prop):
         if kid == KF_TREE and numeric and ("operator strings agree, coefficients differ" in what or "no operator string outside" in what):
             return kid
         if kid == KF_SGE and numeric and "operator strings agree, coefficients differ" in what:
+            return kid
+        if kid == KF_SGE and "raised IndexError: list index out of range [in _remove_reduntant_v_hyperedges]" in what:
             return kid
         if kid == KF_DUP and numeric and "exactly repeated terms counted fewer times" in what:
             return kid
